@@ -18,6 +18,7 @@ import (
 	"runtime/debug"
 	"strings"
 	"syscall"
+	"time"
 	"unsafe"
 
 	"verif/sim/choice"
@@ -107,15 +108,16 @@ type Config struct {
 
 // Stats are per-run counters.
 type Stats struct {
-	Steps      int
-	Syscalls   int
-	Switches   int
-	Preempts   int // a switch away from a task that was still enabled
-	Faults     map[string]int
-	Kills      int
-	ActorSteps int
-	Accesses   int
-	Probes     map[string]int
+	Steps       int
+	Syscalls    int
+	Switches    int
+	Preempts    int // a switch away from a task that was still enabled
+	Faults      map[string]int
+	Kills       int
+	ActorSteps  int
+	Accesses    int
+	TimersFired int
+	Probes      map[string]int
 }
 
 // FaultPolicy decides fault injection for one eligible operation.
@@ -150,10 +152,14 @@ type World struct {
 	// OnStep, when set, is called by the scheduler after every step (omniscient invariant checks).
 	OnStep func()
 	// OnOp, when set, is called by the scheduler for every task operation it resumes, with the decision taken.
-	OnOp   func(t *Task, op *Op, d Decision)
-	nextID int
-	shadow map[unsafe.Pointer]*shadow
-	raceOn bool
+	OnOp       func(t *Task, op *Op, d Decision)
+	nextID     int
+	shadow     map[unsafe.Pointer]*shadow
+	raceOn     bool
+	now        time.Duration
+	timers     []*Timer
+	timerSeq   uint64
+	clockActor bool
 	// Races are the data races detected so far (R6 builds with RaceOn).
 	Races []Race
 }
@@ -234,6 +240,14 @@ func (w *World) InTask() bool { return w.running != nil }
 // simulated operation must then do nothing.
 func (w *World) Inert() bool {
 	return w.closed || (w.running != nil && w.running.dead)
+}
+
+// SpawnAfter is Spawn for a task that is caused by an earlier event of another
+// task (a timer callback): it happens-after vc.
+func (w *World) SpawnAfter(p *Proc, name string, vc []uint32, fn func()) *Task {
+	t := w.Spawn(p, name, fn)
+	joinVC(&t.VC, vc)
+	return t
 }
 
 // Spawn creates a task in process p.  It first runs when the scheduler picks it.
